@@ -121,6 +121,13 @@ def storeStep (w : StoreWorld) (args : List String) : StoreWorld × String :=
       match s.updateText tok.toNat! (decText txt) with
       | .ok s' => (w.putStore s', "ok " ++ dumpStore s')
       | .error e => (w, "err " ++ e)
+  | ["updatefree", tok, txt] =>
+    -- a token outside every store (in the pool) has its text changed
+    match w.pool.find? (·.id = tok.toNat!) with
+    | none => (w, "!not-free")
+    | some t =>
+      let t' := t.updateFree (decText txt)
+      ({ w with pool := w.pool.map fun x => if x.id = t.id then t' else x }, "ok " ++ dumpTok [] t')
   | ["query", sid] => withStore w sid fun s => (w, "ok " ++ dumpQueries s)
   | ["iter", sid, a, b] =>
     withStore w sid fun s => (w, rstr (fun l => "ok " ++ encNats l) (s.iter a.toNat! b.toNat!))
